@@ -718,6 +718,14 @@ def check(pid, tier, seed):
             api_viol = ar['failures']
             api_info = dict(builds=ar['builds'], checks=ar['checks'])
 
+    if P.get('xcrate'):
+        xr = side_probe.run_api(REPO, CACHE, name='xcrate_probe', tdirname='target-xcrate')
+        if xr['error']:
+            broken.append(('build', 'cross-crate probe: ' + xr['error']))
+        else:
+            api_viol = api_viol + ['[world declared in another crate] ' + f for f in xr['failures']]
+            api_info = dict(api_info or {}, xcrate_builds=xr['builds'], xcrate_checks=xr['checks'])
+
     violations = []
     known_hits = []
     kf = known_findings()
@@ -938,7 +946,7 @@ def check(pid, tier, seed):
             trusted_base=['Coq 8.16.1 kernel incl. vm_compute', 'tools/extract.py (translator)', 'correspondence harness (harness/storage_harness, tools/gen_ops.py, tools/coqrun.py)',
                           'rustc/cargo', 'axioms: ' + (', '.join(axioms) if axioms else 'none (Closed under the global context)')],
             theorems=thms, cone_files=conefiles,
-            evaluations=total_cases + (big_info['builds'] if big_info else 0) + (side_info['scenarios'] if side_info else 0) + (1 if fill_info else 0) + (api_info['checks'] if api_info else 0) + (len(cycle_info['runs']) if cycle_info else 0) + (cfgp_info['pairs_compiled_and_compared'] if cfgp_info else 0) + (macro_info['cases'] if macro_info else 0) + ((c18_info['programs'] + c18_info['expansions_checked']) if c18_info else 0),
+            evaluations=total_cases + (big_info['builds'] if big_info else 0) + (side_info['scenarios'] if side_info else 0) + (1 if fill_info else 0) + ((api_info.get('checks', 0) + api_info.get('xcrate_checks', 0)) if api_info else 0) + (len(cycle_info['runs']) if cycle_info else 0) + (cfgp_info['pairs_compiled_and_compared'] if cfgp_info else 0) + (macro_info['cases'] if macro_info else 0) + ((c18_info['programs'] + c18_info['expansions_checked']) if c18_info else 0),
             distinct_nontrivial=len(distinct) + (macro_info['distinct'] if macro_info else 0) + ((c18_info['programs'] + c18_info['expansions_checked']) if c18_info else 0),
             rule='histories generated interactively from VERIF_SEED per stream; non-trivial = at least 10 operations including every kind in %s; distinct by the hash of the operation list' % sorted(need),
             traces_validated_against_impl=total_cases,
